@@ -6,15 +6,16 @@ Import ListNotations.
 Definition set_sites : list site := [
   ((s "sharepoint2text/parsing/extractors/archive_extractor.py"), (s "<module>"), (85)%Z, UAnyAll);
   ((s "sharepoint2text/parsing/extractors/archive_extractor.py"), (s "<module>"), (101)%Z, UNone);
-  ((s "sharepoint2text/parsing/extractors/data_types.py"), (s "DocxContent.iterate_units"), (951)%Z, UMember);
-  ((s "sharepoint2text/parsing/extractors/epub_extractor.py"), (s "<module>"), (119)%Z, UMember);
-  ((s "sharepoint2text/parsing/extractors/epub_extractor.py"), (s "<module>"), (122)%Z, UMember);
-  ((s "sharepoint2text/parsing/extractors/epub_extractor.py"), (s "<module>"), (669)%Z, UMember);
+  ((s "sharepoint2text/parsing/extractors/data_types.py"), (s "DocxContent.iterate_units"), (965)%Z, UMember);
+  ((s "sharepoint2text/parsing/extractors/epub_extractor.py"), (s "<module>"), (120)%Z, UMember);
+  ((s "sharepoint2text/parsing/extractors/epub_extractor.py"), (s "<module>"), (123)%Z, UMember);
+  ((s "sharepoint2text/parsing/extractors/epub_extractor.py"), (s "<module>"), (126)%Z, UMember);
+  ((s "sharepoint2text/parsing/extractors/epub_extractor.py"), (s "<module>"), (677)%Z, UMember);
   ((s "sharepoint2text/parsing/extractors/html_extractor.py"), (s "<module>"), (111)%Z, UMember);
   ((s "sharepoint2text/parsing/extractors/html_extractor.py"), (s "<module>"), (114)%Z, UMember);
   ((s "sharepoint2text/parsing/extractors/html_extractor.py"), (s "<module>"), (142)%Z, UMember);
-  ((s "sharepoint2text/parsing/extractors/html_extractor.py"), (s "_HtmlTextExtractor._collect_headings_recursive"), (389)%Z, UMember);
-  ((s "sharepoint2text/parsing/extractors/html_extractor.py"), (s "_HtmlTextExtractor._process_node"), (510)%Z, UMember);
+  ((s "sharepoint2text/parsing/extractors/html_extractor.py"), (s "_HtmlTextExtractor._collect_headings_recursive"), (396)%Z, UMember);
+  ((s "sharepoint2text/parsing/extractors/html_extractor.py"), (s "_HtmlTextExtractor._process_node"), (517)%Z, UMember);
   ((s "sharepoint2text/parsing/extractors/ms_legacy/doc_extractor.py"), (s "_DocReader._extract_images_from_word_document"), (356)%Z, UMember);
   ((s "sharepoint2text/parsing/extractors/ms_legacy/doc_extractor.py"), (s "_DocReader._extract_png_images_from_bytes"), (450)%Z, UMember);
   ((s "sharepoint2text/parsing/extractors/ms_legacy/doc_extractor.py"), (s "_DocReader._extract_image_captions"), (590)%Z, UMember);
@@ -25,21 +26,21 @@ Definition set_sites : list site := [
   ((s "sharepoint2text/parsing/extractors/ms_legacy/ppt_extractor.py"), (s "<module>"), (95)%Z, UMember);
   ((s "sharepoint2text/parsing/extractors/ms_legacy/ppt_extractor.py"), (s "_extract_images_from_pictures_stream"), (613)%Z, UMember);
   ((s "sharepoint2text/parsing/extractors/ms_legacy/ppt_extractor.py"), (s "_parse_ppt_document"), (364)%Z, UMember);
-  ((s "sharepoint2text/parsing/extractors/ms_legacy/rtf_extractor.py"), (s "_RtfParser.<class>"), (205)%Z, UAnyAll);
+  ((s "sharepoint2text/parsing/extractors/ms_legacy/rtf_extractor.py"), (s "_RtfParser.<class>"), (215)%Z, UAnyAll);
   ((s "sharepoint2text/parsing/extractors/ms_legacy/xls_extractor.py"), (s "_extract_images_from_workbook"), (348)%Z, UMember);
-  ((s "sharepoint2text/parsing/extractors/ms_modern/docx_extractor.py"), (s "<module>"), (169)%Z, UMember);
   ((s "sharepoint2text/parsing/extractors/ms_modern/docx_extractor.py"), (s "<module>"), (172)%Z, UMember);
-  ((s "sharepoint2text/parsing/extractors/ms_modern/docx_extractor.py"), (s "_extract_formulas_from_context"), (962)%Z, UMember);
-  ((s "sharepoint2text/parsing/extractors/ms_modern/docx_extractor.py"), (s "read_docx"), (1017)%Z, USorted);
-  ((s "sharepoint2text/parsing/extractors/ms_modern/docx_extractor.py"), (s "_extract_images_from_context"), (920)%Z, USorted);
-  ((s "sharepoint2text/parsing/extractors/ms_modern/docx_extractor.py"), (s "_extract_images_from_context"), (881)%Z, USorted);
-  ((s "sharepoint2text/parsing/extractors/ms_modern/pptx_extractor.py"), (s "<module>"), (191)%Z, UMember);
-  ((s "sharepoint2text/parsing/extractors/ms_modern/pptx_extractor.py"), (s "<module>"), (194)%Z, UMember);
-  ((s "sharepoint2text/parsing/extractors/ms_modern/pptx_extractor.py"), (s "<module>"), (197)%Z, UMember);
-  ((s "sharepoint2text/parsing/extractors/ms_modern/pptx_extractor.py"), (s "<module>"), (201)%Z, UMember);
-  ((s "sharepoint2text/parsing/extractors/ms_modern/pptx_extractor.py"), (s "_extract_formulas_from_element"), (659)%Z, UMember);
-  ((s "sharepoint2text/parsing/extractors/ms_modern/pptx_extractor.py"), (s "_process_slide_from_context"), (888)%Z, UMember);
-  ((s "sharepoint2text/parsing/extractors/ms_modern/xlsx_extractor.py"), (s "<module>"), (76)%Z, UMember);
+  ((s "sharepoint2text/parsing/extractors/ms_modern/docx_extractor.py"), (s "<module>"), (175)%Z, UMember);
+  ((s "sharepoint2text/parsing/extractors/ms_modern/docx_extractor.py"), (s "_extract_formulas_from_context"), (971)%Z, UMember);
+  ((s "sharepoint2text/parsing/extractors/ms_modern/docx_extractor.py"), (s "read_docx"), (1026)%Z, USorted);
+  ((s "sharepoint2text/parsing/extractors/ms_modern/docx_extractor.py"), (s "_extract_images_from_context"), (925)%Z, USorted);
+  ((s "sharepoint2text/parsing/extractors/ms_modern/docx_extractor.py"), (s "_extract_images_from_context"), (884)%Z, USorted);
+  ((s "sharepoint2text/parsing/extractors/ms_modern/pptx_extractor.py"), (s "<module>"), (192)%Z, UMember);
+  ((s "sharepoint2text/parsing/extractors/ms_modern/pptx_extractor.py"), (s "<module>"), (195)%Z, UMember);
+  ((s "sharepoint2text/parsing/extractors/ms_modern/pptx_extractor.py"), (s "<module>"), (198)%Z, UMember);
+  ((s "sharepoint2text/parsing/extractors/ms_modern/pptx_extractor.py"), (s "<module>"), (202)%Z, UMember);
+  ((s "sharepoint2text/parsing/extractors/ms_modern/pptx_extractor.py"), (s "_extract_formulas_from_element"), (660)%Z, UMember);
+  ((s "sharepoint2text/parsing/extractors/ms_modern/pptx_extractor.py"), (s "_process_slide_from_context"), (860)%Z, UMember);
+  ((s "sharepoint2text/parsing/extractors/ms_modern/xlsx_extractor.py"), (s "<module>"), (79)%Z, UMember);
   ((s "sharepoint2text/parsing/extractors/open_office/_shared.py"), (s "element_text"), (97)%Z, UMember);
   ((s "sharepoint2text/parsing/extractors/open_office/odf_extractor.py"), (s "<module>"), (65)%Z, UMember);
   ((s "sharepoint2text/parsing/extractors/open_office/odg_extractor.py"), (s "<module>"), (73)%Z, UMember);
@@ -48,12 +49,12 @@ Definition set_sites : list site := [
   ((s "sharepoint2text/parsing/extractors/open_office/ods_extractor.py"), (s "<module>"), (179)%Z, UMember);
   ((s "sharepoint2text/parsing/extractors/open_office/odt_extractor.py"), (s "<module>"), (242)%Z, UMember);
   ((s "sharepoint2text/parsing/extractors/open_office/odt_extractor.py"), (s "_extract_images_from_context"), (479)%Z, UMember);
-  ((s "sharepoint2text/parsing/extractors/open_office/odt_extractor.py"), (s "_extract_styles_from_context"), (667)%Z, USorted);
-  ((s "sharepoint2text/parsing/extractors/pdf/pdf_extractor.py"), (s "_assign_digit_glyphs"), (389)%Z, UMember);
-  ((s "sharepoint2text/parsing/extractors/pdf/pdf_extractor.py"), (s "_TableExtractor.<class>"), (871)%Z, UMember);
-  ((s "sharepoint2text/parsing/extractors/pdf/pdf_extractor.py"), (s "_TableExtractor._split_compound_words"), (1368)%Z, UMember);
-  ((s "sharepoint2text/parsing/extractors/pdf/pdf_extractor.py"), (s "_TableExtractor._split_compound_words"), (1369)%Z, UMember);
-  ((s "sharepoint2text/parsing/extractors/pdf/pdf_extractor.py"), (s "_TableExtractor.is_numeric_token"), (1268)%Z, UMember);
+  ((s "sharepoint2text/parsing/extractors/open_office/odt_extractor.py"), (s "_extract_styles_from_context"), (677)%Z, USorted);
+  ((s "sharepoint2text/parsing/extractors/pdf/pdf_extractor.py"), (s "_assign_digit_glyphs"), (394)%Z, UMember);
+  ((s "sharepoint2text/parsing/extractors/pdf/pdf_extractor.py"), (s "_TableExtractor.<class>"), (895)%Z, UMember);
+  ((s "sharepoint2text/parsing/extractors/pdf/pdf_extractor.py"), (s "_TableExtractor._split_compound_words"), (1392)%Z, UMember);
+  ((s "sharepoint2text/parsing/extractors/pdf/pdf_extractor.py"), (s "_TableExtractor._split_compound_words"), (1393)%Z, UMember);
+  ((s "sharepoint2text/parsing/extractors/pdf/pdf_extractor.py"), (s "_TableExtractor.is_numeric_token"), (1292)%Z, UMember);
   ((s "sharepoint2text/parsing/extractors/serialization.py"), (s "_deserialize_dataclass"), (196)%Z, UMember);
   ((s "sharepoint2text/parsing/extractors/util/omml_to_latex.py"), (s "<module>"), (157)%Z, UMember);
   ((s "sharepoint2text/parsing/extractors/util/zip_context.py"), (s "ZipContext.__init__"), (18)%Z, UMember);
@@ -67,13 +68,13 @@ Definition nd_sites : list nd_site := [
   ((s "sharepoint2text/parsing/extractors/archive_extractor.py"), (s "read_archive"), (570)%Z, (s "time.perf_counter"), SLog);
   ((s "sharepoint2text/parsing/extractors/archive_extractor.py"), (s "read_archive"), (602)%Z, (s "time.perf_counter"), SLog);
   ((s "sharepoint2text/parsing/extractors/archive_extractor.py"), (s "read_archive"), (580)%Z, (s "time.perf_counter"), SLog);
-  ((s "sharepoint2text/parsing/extractors/html_extractor.py"), (s "_HtmlTextExtractor._find_nodes"), (300)%Z, (s "id()"), SIdentityKey);
-  ((s "sharepoint2text/parsing/extractors/html_extractor.py"), (s "_HtmlTextExtractor._find_node"), (317)%Z, (s "id()"), SIdentityKey);
-  ((s "sharepoint2text/parsing/extractors/ms_modern/docx_extractor.py"), (s "_extract_formulas_from_context"), (975)%Z, (s "id()"), SIdentityKey);
-  ((s "sharepoint2text/parsing/extractors/ms_modern/docx_extractor.py"), (s "_extract_formulas_from_context"), (968)%Z, (s "id()"), SIdentityKey);
-  ((s "sharepoint2text/parsing/extractors/ms_modern/pptx_extractor.py"), (s "_extract_formulas_from_element"), (672)%Z, (s "id()"), SIdentityKey);
-  ((s "sharepoint2text/parsing/extractors/ms_modern/pptx_extractor.py"), (s "_extract_formulas_from_element"), (665)%Z, (s "id()"), SIdentityKey);
-  ((s "sharepoint2text/parsing/extractors/pdf/_pypdf_aes_fallback.py"), (s "_cryptaes_encrypt"), (839)%Z, (s "secrets.token_bytes"), SEncryptOnly)
+  ((s "sharepoint2text/parsing/extractors/html_extractor.py"), (s "_HtmlTextExtractor._find_nodes"), (307)%Z, (s "id()"), SIdentityKey);
+  ((s "sharepoint2text/parsing/extractors/html_extractor.py"), (s "_HtmlTextExtractor._find_node"), (324)%Z, (s "id()"), SIdentityKey);
+  ((s "sharepoint2text/parsing/extractors/ms_modern/docx_extractor.py"), (s "_extract_formulas_from_context"), (984)%Z, (s "id()"), SIdentityKey);
+  ((s "sharepoint2text/parsing/extractors/ms_modern/docx_extractor.py"), (s "_extract_formulas_from_context"), (977)%Z, (s "id()"), SIdentityKey);
+  ((s "sharepoint2text/parsing/extractors/ms_modern/pptx_extractor.py"), (s "_extract_formulas_from_element"), (673)%Z, (s "id()"), SIdentityKey);
+  ((s "sharepoint2text/parsing/extractors/ms_modern/pptx_extractor.py"), (s "_extract_formulas_from_element"), (666)%Z, (s "id()"), SIdentityKey);
+  ((s "sharepoint2text/parsing/extractors/pdf/_pypdf_aes_fallback.py"), (s "_cryptaes_encrypt"), (844)%Z, (s "secrets.token_bytes"), SEncryptOnly)
 ].
 
 Definition stream_sites : list stream_site := [
@@ -83,9 +84,9 @@ Definition stream_sites : list stream_site := [
   ((s "sharepoint2text/parsing/extractors/archive_extractor.py"), (s "_extract_from_7z_optimized"), (449)%Z, (s "seek"));
   ((s "sharepoint2text/parsing/extractors/archive_extractor.py"), (s "_extract_from_7z_optimized"), (450)%Z, (s "tell"));
   ((s "sharepoint2text/parsing/extractors/archive_extractor.py"), (s "_extract_from_7z_optimized"), (451)%Z, (s "seek"));
-  ((s "sharepoint2text/parsing/extractors/epub_extractor.py"), (s "read_epub"), (748)%Z, (s "seek"));
-  ((s "sharepoint2text/parsing/extractors/html_extractor.py"), (s "read_html"), (622)%Z, (s "seek"));
-  ((s "sharepoint2text/parsing/extractors/html_extractor.py"), (s "read_html"), (624)%Z, (s "read"));
+  ((s "sharepoint2text/parsing/extractors/epub_extractor.py"), (s "read_epub"), (756)%Z, (s "seek"));
+  ((s "sharepoint2text/parsing/extractors/html_extractor.py"), (s "read_html"), (629)%Z, (s "seek"));
+  ((s "sharepoint2text/parsing/extractors/html_extractor.py"), (s "read_html"), (631)%Z, (s "read"));
   ((s "sharepoint2text/parsing/extractors/mail/eml_email_extractor.py"), (s "read_eml_format_mail"), (261)%Z, (s "seek"));
   ((s "sharepoint2text/parsing/extractors/mail/eml_email_extractor.py"), (s "read_eml_format_mail"), (262)%Z, (s "getvalue"));
   ((s "sharepoint2text/parsing/extractors/mail/mbox_email_extractor.py"), (s "read_mbox_format_mail"), (496)%Z, (s "seek"));
@@ -100,29 +101,29 @@ Definition stream_sites : list stream_site := [
   ((s "sharepoint2text/parsing/extractors/ms_legacy/ppt_extractor.py"), (s "_extract_ppt_content_structured"), (259)%Z, (s "seek"));
   ((s "sharepoint2text/parsing/extractors/ms_legacy/ppt_extractor.py"), (s "_extract_ppt_metadata"), (675)%Z, (s "seek"));
   ((s "sharepoint2text/parsing/extractors/ms_legacy/ppt_extractor.py"), (s "_extract_ppt_metadata"), (680)%Z, (s "seek"));
-  ((s "sharepoint2text/parsing/extractors/ms_legacy/rtf_extractor.py"), (s "read_rtf"), (868)%Z, (s "seek"));
-  ((s "sharepoint2text/parsing/extractors/ms_legacy/rtf_extractor.py"), (s "read_rtf"), (869)%Z, (s "read"));
+  ((s "sharepoint2text/parsing/extractors/ms_legacy/rtf_extractor.py"), (s "read_rtf"), (881)%Z, (s "seek"));
+  ((s "sharepoint2text/parsing/extractors/ms_legacy/rtf_extractor.py"), (s "read_rtf"), (882)%Z, (s "read"));
   ((s "sharepoint2text/parsing/extractors/ms_legacy/xls_extractor.py"), (s "_read_content"), (203)%Z, (s "read"));
   ((s "sharepoint2text/parsing/extractors/ms_legacy/xls_extractor.py"), (s "read_xls"), (296)%Z, (s "seek"));
   ((s "sharepoint2text/parsing/extractors/ms_legacy/xls_extractor.py"), (s "read_xls"), (300)%Z, (s "seek"));
   ((s "sharepoint2text/parsing/extractors/ms_legacy/xls_extractor.py"), (s "read_xls"), (301)%Z, (s "read"));
   ((s "sharepoint2text/parsing/extractors/ms_legacy/xls_extractor.py"), (s "_extract_images_from_workbook"), (329)%Z, (s "seek"));
   ((s "sharepoint2text/parsing/extractors/ms_legacy/xls_extractor.py"), (s "_extract_images_from_workbook"), (333)%Z, (s "seek"));
-  ((s "sharepoint2text/parsing/extractors/ms_modern/docx_extractor.py"), (s "read_docx"), (998)%Z, (s "seek"));
-  ((s "sharepoint2text/parsing/extractors/ms_modern/pptx_extractor.py"), (s "read_pptx"), (972)%Z, (s "seek"));
-  ((s "sharepoint2text/parsing/extractors/ms_modern/xlsx_extractor.py"), (s "_read_metadata"), (305)%Z, (s "seek"));
-  ((s "sharepoint2text/parsing/extractors/ms_modern/xlsx_extractor.py"), (s "_read_content"), (519)%Z, (s "seek"));
-  ((s "sharepoint2text/parsing/extractors/ms_modern/xlsx_extractor.py"), (s "_read_content"), (520)%Z, (s "read"));
-  ((s "sharepoint2text/parsing/extractors/ms_modern/xlsx_extractor.py"), (s "read_xlsx"), (577)%Z, (s "seek"));
-  ((s "sharepoint2text/parsing/extractors/ms_modern/xlsx_extractor.py"), (s "read_xlsx"), (583)%Z, (s "read"));
+  ((s "sharepoint2text/parsing/extractors/ms_modern/docx_extractor.py"), (s "read_docx"), (1007)%Z, (s "seek"));
+  ((s "sharepoint2text/parsing/extractors/ms_modern/pptx_extractor.py"), (s "read_pptx"), (944)%Z, (s "seek"));
+  ((s "sharepoint2text/parsing/extractors/ms_modern/xlsx_extractor.py"), (s "_read_metadata"), (313)%Z, (s "seek"));
+  ((s "sharepoint2text/parsing/extractors/ms_modern/xlsx_extractor.py"), (s "_read_content"), (525)%Z, (s "seek"));
+  ((s "sharepoint2text/parsing/extractors/ms_modern/xlsx_extractor.py"), (s "_read_content"), (526)%Z, (s "read"));
+  ((s "sharepoint2text/parsing/extractors/ms_modern/xlsx_extractor.py"), (s "read_xlsx"), (583)%Z, (s "seek"));
+  ((s "sharepoint2text/parsing/extractors/ms_modern/xlsx_extractor.py"), (s "read_xlsx"), (589)%Z, (s "read"));
   ((s "sharepoint2text/parsing/extractors/open_office/odf_extractor.py"), (s "read_odf"), (241)%Z, (s "seek"));
   ((s "sharepoint2text/parsing/extractors/open_office/odg_extractor.py"), (s "read_odg"), (203)%Z, (s "seek"));
   ((s "sharepoint2text/parsing/extractors/open_office/odp_extractor.py"), (s "read_odp"), (502)%Z, (s "seek"));
   ((s "sharepoint2text/parsing/extractors/open_office/ods_extractor.py"), (s "read_ods"), (549)%Z, (s "seek"));
-  ((s "sharepoint2text/parsing/extractors/open_office/odt_extractor.py"), (s "read_odt"), (776)%Z, (s "seek"));
-  ((s "sharepoint2text/parsing/extractors/pdf/pdf_extractor.py"), (s "_open_pdf_reader"), (216)%Z, (s "seek"));
-  ((s "sharepoint2text/parsing/extractors/pdf/pdf_extractor.py"), (s "_open_pdf_reader"), (224)%Z, (s "seek"));
-  ((s "sharepoint2text/parsing/extractors/pdf/pdf_extractor.py"), (s "_should_skip_images"), (244)%Z, (s "getbuffer().nbytes"));
+  ((s "sharepoint2text/parsing/extractors/open_office/odt_extractor.py"), (s "read_odt"), (786)%Z, (s "seek"));
+  ((s "sharepoint2text/parsing/extractors/pdf/pdf_extractor.py"), (s "_open_pdf_reader"), (220)%Z, (s "seek"));
+  ((s "sharepoint2text/parsing/extractors/pdf/pdf_extractor.py"), (s "_open_pdf_reader"), (228)%Z, (s "seek"));
+  ((s "sharepoint2text/parsing/extractors/pdf/pdf_extractor.py"), (s "_should_skip_images"), (248)%Z, (s "getbuffer().nbytes"));
   ((s "sharepoint2text/parsing/extractors/plain_extractor.py"), (s "read_plain_text"), (177)%Z, (s "seek"));
   ((s "sharepoint2text/parsing/extractors/plain_extractor.py"), (s "read_plain_text"), (179)%Z, (s "read"));
   ((s "sharepoint2text/parsing/extractors/util/encryption.py"), (s "is_ooxml_encrypted"), (18)%Z, (s "seek"));
